@@ -38,7 +38,7 @@ func (a U) S() string { return "u" }
 func (p P) Str() string { return tab[p] }
 `
 
-const ifaceMethods = "P.Str,T.Ver,U.Ver,T.B,U.B,I.Ver,I.B"
+const ifaceTestMethods = "P.Str,T.Ver,U.Ver,T.B,U.B,I.Ver,I.B"
 
 var ifaceCases = []struct {
 	name, src, fns string
@@ -106,14 +106,14 @@ func f(t time.Time) int { return 1 }`, "f", false, "a struct value of a type of 
 	{"pointer returned as the interface", ifacePrelude + `func f() I { var a T; return &a }`, "f", false, "only VALUES of the package's struct types are modelled"},
 	{"struct value assigned to an interface variable", ifacePrelude + `func f(x []byte) I { var a T; var i I = a; return i }`, "f", false, "declaration type"},
 	// the closed interface
-	{"dispatch function", ifacePrelude, ifaceMethods, true,
+	{"dispatch function", ifacePrelude, ifaceTestMethods, true,
 		"def I_B (a : Option (Nat × List (BitVec 8))) : Option (List (BitVec 8)) :=\n  match a with\n  | none => none\n  | some (0, h) => some (T_B h)\n  | some (1, h) => some (U_B h)\n  | some _ => none"},
-	{"dispatch of a method with an unnamed receiver", ifacePrelude, ifaceMethods, true, "  | some (1, h) => some (U_Ver h)"},
-	{"interface method call", ifacePrelude + `func f(a I) []byte { return a.B() }`, ifaceMethods + ",f", true, "Go.Flow.bind (Go.call (I_B a)) (fun (st_1 : List (BitVec 8)) =>\n  Go.Flow.done st_1)"},
+	{"dispatch of a method with an unnamed receiver", ifacePrelude, ifaceTestMethods, true, "  | some (1, h) => some (U_Ver h)"},
+	{"interface method call", ifacePrelude + `func f(a I) []byte { return a.B() }`, ifaceTestMethods + ",f", true, "Go.Flow.bind (Go.call (I_B a)) (fun (st_1 : List (BitVec 8)) =>\n  Go.Flow.done st_1)"},
 	{"interface method calls as arguments", ifacePrelude + `func g(v V, b []byte) int { return len(b) + int(v) }
-func f(a I) int { return g(a.Ver(), a.B()) }`, ifaceMethods + ",g,f", true, "Go.Flow.bind (Go.call (I_B a)) (fun (st_2 : List (BitVec 8)) =>\n  Go.Flow.done (g st_1 st_2)))"},
-	{"interface parameter, closed world in the doc comment", ifacePrelude + `func f(a I) []byte { return a.B() }`, ifaceMethods + ",f", true, "CLOSED WORLD"},
-	{"call of an interface method without dispatch function", ifacePrelude + `func f(a I) string { return a.S() }`, ifaceMethods + ",f", false, "for which no dispatch function has been generated"},
+func f(a I) int { return g(a.Ver(), a.B()) }`, ifaceTestMethods + ",g,f", true, "Go.Flow.bind (Go.call (I_B a)) (fun (st_2 : List (BitVec 8)) =>\n  Go.Flow.done (g st_1 st_2)))"},
+	{"interface parameter, closed world in the doc comment", ifacePrelude + `func f(a I) []byte { return a.B() }`, ifaceTestMethods + ",f", true, "CLOSED WORLD"},
+	{"call of an interface method without dispatch function", ifacePrelude + `func f(a I) string { return a.S() }`, ifaceTestMethods + ",f", false, "for which no dispatch function has been generated"},
 	{"dispatch requested before the methods", ifacePrelude, "T.B,I.B", false, "the method U.B has not been translated before it"},
 	{"dispatch of a method the interface does not have", ifacePrelude, "T.B,U.B,I.Q", false, "interface I has no method Q"},
 	{"interface of another package", `import "fmt"
